@@ -528,9 +528,9 @@ def _fuzz_shard(tier, seed, shard, n_shards, n_examples):
 
 SUBS = [
     Sub("moment_partition", check_moment, strategy=_moment_cases, quick=1500, thorough=50000, shards=16,
-        floors={"nt": 0.408, "naive_join_collides": 0.048, "separator_only_escape_collides": 0.023, "role:control": 0.121}),
+        floors={"nt": 0.392, "naive_join_collides": 0.048, "separator_only_escape_collides": 0.022, "role:control": 0.121}),
     Sub("threshold_optimizer", check_threshold_optimizer, strategy=_to_cases, quick=300, thorough=10000, shards=16,
-        floors={"nt": 0.389, "naive_join_collides": 0.061}),
+        floors={"nt": 0.366, "naive_join_collides": 0.058}),
     Sub("reductions_fit", check_reduction, strategy=_red_cases, quick=60, thorough=1500, shards=16, shrink_quick=False,
         floors={"nt": 0.4}),
     Sub("metricframe_partition", check_metricframe, strategy=_mf_cases, quick=300, thorough=10000, shards=8,
